@@ -785,6 +785,8 @@ def run(chk):
     chk.guard(rule_r6, chk, model)
     from .. import gens
     chk.guard(gens.apply, chk, "C10-R8", {"series"}, 5, "a generator of periods or variants consumed twice leaves later variants / later passes without data")
+    from .. import unused as _unused
+    chk.guard(_unused.apply, chk, "C10-R91")
     from .. import args as _args
     chk.guard(_args.apply, chk, "C10-R90", {'series'}, 1)
     chk.assumptions = [
